@@ -7,6 +7,7 @@ import (
 	"os"
 	"sync"
 	"sync/atomic"
+	"syscall"
 	"testing"
 	"time"
 
@@ -37,6 +38,8 @@ type c20Plan struct {
 }
 
 var c20Seq int32
+
+var snifferMissing atomic.Bool
 
 func fdCount() int {
 	d, err := os.ReadDir("/proc/self/fd")
@@ -249,6 +252,90 @@ func c20Describe(p c20Plan, timeout, margin time.Duration) (*common.Fail, string
 	return nil, ""
 }
 
+// sniffer counts the search requests that leave this host for group:port, seen through an
+// AF_PACKET/ETH_P_ALL socket (needs CAP_NET_RAW; when it cannot be opened the sub-oracle is skipped).
+type sniffer struct {
+	fd      int
+	count   atomic.Int32
+	markers atomic.Int32
+	done    chan struct{}
+	grp     *net.UDPAddr
+}
+
+func htons(v uint16) uint16 { return v<<8 | v>>8 }
+
+func startSniffer(grp *net.UDPAddr) *sniffer {
+	fd, err := syscall.Socket(syscall.AF_PACKET, syscall.SOCK_DGRAM, int(htons(syscall.ETH_P_ALL)))
+	if err != nil {
+		return nil
+	}
+	tv := syscall.Timeval{Sec: 0, Usec: 20000}
+	syscall.SetsockoptTimeval(fd, syscall.SOL_SOCKET, syscall.SO_RCVTIMEO, &tv)
+	syscall.SetsockoptInt(fd, syscall.SOL_SOCKET, syscall.SO_RCVBUF, 8<<20)
+	sn := &sniffer{fd: fd, done: make(chan struct{}), grp: grp}
+	stop := make(chan struct{})
+	sn.done = stop
+	go func() {
+		buf := make([]byte, 65536)
+		for {
+			select {
+			case <-stop:
+				syscall.Close(fd)
+				return
+			default:
+			}
+			n, from, err := syscall.Recvfrom(fd, buf, 0)
+			if err != nil || n < 28 {
+				continue
+			}
+			if ll, ok := from.(*syscall.SockaddrLinklayer); ok && ll.Pkttype != 4 { // PACKET_OUTGOING only
+				continue
+			}
+			ip := buf[:n]
+			if ip[0]>>4 != 4 || ip[9] != 17 {
+				continue
+			}
+			ihl := int(ip[0]&15) * 4
+			if n < ihl+8 || !net.IP(ip[16:20]).Equal(grp.IP.To4()) {
+				continue
+			}
+			udp := ip[ihl:]
+			// Discover's socket is bound to the group's port, so its datagrams carry that port as source as well;
+			// the responders of this harness (which may send search requests as noise) use ephemeral ports
+			if int(udp[2])<<8|int(udp[3]) != grp.Port || int(udp[0])<<8|int(udp[1]) != grp.Port {
+				continue
+			}
+			var svc knxnet.Service
+			if _, err := knxnet.Unpack(udp[8:n-ihl], &svc); err == nil {
+				if r, ok := svc.(*knxnet.SearchReq); ok {
+					if r.HostInfo.Port == 1 {
+						sn.markers.Add(1) // the harness's own marker (see stop)
+					} else {
+						sn.count.Add(1)
+					}
+				}
+			}
+		}
+	}()
+	return sn
+}
+
+// stop returns the number of search requests seen, or -1 when the sniffer cannot be trusted: after the
+// call under test has returned (its port is free again) the harness sends a marker request from the same
+// port; a sniffer that does not see the marker may have missed the real request too.
+func (sn *sniffer) stop() int {
+	if c, err := net.ListenUDP("udp4", sn.grp); err == nil {
+		c.WriteToUDP(knxnet.AllocAndPack(&knxnet.SearchReq{HostInfo: knxnet.HostInfo{Protocol: knxnet.UDP4, Port: 1}}), sn.grp)
+		c.Close()
+	}
+	time.Sleep(30 * time.Millisecond)
+	close(sn.done)
+	if sn.markers.Load() == 0 {
+		return -1
+	}
+	return int(sn.count.Load())
+}
+
 // mcastProbe is done once: can we join a group and reach it from a local sender?
 var (
 	mcastOnce sync.Once
@@ -316,6 +403,7 @@ func c20Discover(p c20Plan, timeout, margin time.Duration) (*common.Fail, string
 	}()
 	sentAt := make([]time.Time, len(p.Steps))
 	var wg sync.WaitGroup
+	sn := startSniffer(grp)
 	ctl := startControl(timeout)
 	t0 := time.Now()
 	wg.Add(1)
@@ -333,8 +421,18 @@ func c20Discover(p c20Plan, timeout, margin time.Duration) (*common.Fail, string
 	elapsed := time.Since(t0)
 	<-ctl.done
 	wg.Wait()
+	nReq := -1
+	if sn != nil {
+		nReq = sn.stop()
+	}
 	if err != nil {
 		return nil, "Discover could not open its socket: " + err.Error()
+	}
+	if nReq >= 0 && nReq != 1 {
+		return common.Failf("request-count", "Discover sent %d search requests to %v (seen leaving the host through a packet socket); exactly one is expected", nReq, grp), ""
+	}
+	if nReq < 0 {
+		snifferMissing.Store(true)
 	}
 	if elapsed < timeout {
 		return common.Failf("returned-early", "Discover returned after %v, before its timeout %v had elapsed", elapsed, timeout), ""
@@ -505,6 +603,9 @@ func TestC20(t *testing.T) {
 			if p.Call == "discover" && !mcastOK {
 				rec.Skip("discover", mcastWhy)
 			}
+		}
+		if snifferMissing.Load() {
+			rec.Skip("discover-request-count", "no packet socket (CAP_NET_RAW): the number of search requests is not observed")
 		}
 		return f
 	}
